@@ -858,3 +858,52 @@ R("update-owner-check-helper", ["C20"],
 	}
 	_ = bytes.Equal
 """))
+
+# ------------------------------------------------------------------ C15
+M("mint-fix-reverted", "C15", "C15.mint",
+  ("action/eth/check_finalty.go", """	err = ctx.Balances.AddToAddress(tracker.ProcessOwner, oEthCoin)""", """	err = ctx.Balances.AddToAddress(oltTx.Locker, oEthCoin)"""))
+M("erc20-dedupe-fix-reverted", "C15", "C15.dedupe",
+  ("action/eth/ext_ERC20Lock.go", """	if ctx.ETHTrackers.WithPrefixType(ethereum.PrefixOngoing).Exists(name) || ctx.ETHTrackers.WithPrefixType(ethereum.PrefixPassed).Exists(name) {
+		return false, action.Response{
+			Log: "Tracker already exists / Lock for this ETHTX in progress or has completed successfully",
+		}
+	}
+""", ""))
+M("lock-dedupe-only-ongoing", "C15", "C15.dedupe",
+  ("action/eth/ext_lock.go", """	if ctx.ETHTrackers.WithPrefixType(ethereum.PrefixOngoing).Exists(name) || ctx.ETHTrackers.WithPrefixType(ethereum.PrefixPassed).Exists(name) {""",
+   """	if ctx.ETHTrackers.WithPrefixType(ethereum.PrefixOngoing).Exists(name) {"""))
+M("finalized-half-plus-one", "C15", "C15.threshold",
+  ("data/ethereum/tracker.go", """func (t *Tracker) Finalized() bool {
+	l := len(t.Witnesses)
+	num := (l * 2 / 3) + 1""", """func (t *Tracker) Finalized() bool {
+	l := len(t.Witnesses)
+	num := (l / 2) + 1"""))
+M("redeem-tracker-before-supply-debit", "C15", "C15.redeem",
+  ("action/eth/ext_redeem.go", """	err = ctx.Balances.MinusFromAddress(ethSupply, coin)
+	if err != nil {""", """	err = ctx.Balances.MinusFromAddress(ethSupply, coin)
+	if err != nil && coin.Amount == nil {"""))
+M("mint-on-vote-before-threshold-recheck", "C15", "C15.finality",
+  ("action/eth/check_finalty.go", """	//Handle when tracker has 67% Yes votes
+	if tracker.Finalized() {
+""", """	//Handle when tracker has 67% Yes votes
+	if yes, _ := tracker.GetVotes(); yes*3 >= len(tracker.Witnesses)*2 {
+"""))
+M("mint-amount-from-report", "C15", "C15.mint",
+  ("action/eth/check_finalty.go", """	err = ctx.Balances.AddToAddress(ethSupply, oEthCoin)
+	if err != nil {
+		return errors.Wrap(err, "Unable to update total Eth supply")
+	}""", """	err = ctx.Balances.AddToAddress(ethSupply, curr.NewCoinFromInt(oltTx.VoteIndex))
+	if err != nil {
+		return errors.Wrap(err, "Unable to update total Eth supply")
+	}"""))
+R("lock-dedupe-sequential-ifs", ["C15", "C07"],
+  ("action/eth/ext_lock.go", """	if ctx.ETHTrackers.WithPrefixType(ethereum.PrefixOngoing).Exists(name) || ctx.ETHTrackers.WithPrefixType(ethereum.PrefixPassed).Exists(name) {
+		return false, action.Response{
+			Log: "Tracker already exists / Lock for this ETHTX in progress or has completed successfully",
+		}
+	}""", """	if inProgress := ctx.ETHTrackers.WithPrefixType(ethereum.PrefixOngoing).Exists(name); inProgress {
+		return false, action.Response{Log: "Tracker already exists / Lock for this ETHTX in progress"}
+	}
+	if done := ctx.ETHTrackers.WithPrefixType(ethereum.PrefixPassed).Exists(name); done {
+		return false, action.Response{Log: "Lock for this ETHTX has completed successfully"}
+	}"""))
